@@ -36,6 +36,14 @@ impl<T: Show, E: Show> Show for Result<T, E> {
     }
 }
 
+/// the bytes of the `#[repr(C)] struct { raw_value: W }` as a number: the whole storage, including any bits above the
+/// exposed width of an arbitrary-int base
+pub fn storage<S: Copy, W: Copy + Into<u128>>(s: &S) -> u128 {
+    assert!(std::mem::size_of::<S>() == std::mem::size_of::<W>());
+    let w: W = unsafe { std::mem::transmute_copy::<S, W>(s) };
+    w.into()
+}
+
 pub fn catch<R>(f: impl FnOnce() -> R) -> Option<R> {
     std::panic::catch_unwind(AssertUnwindSafe(f)).ok()
 }
@@ -167,22 +175,29 @@ pub fn op_get<S, R: Show>(o: &mut Out, d: &str, f: &str, count: Option<usize>, r
 }
 
 pub fn op_write<S, V: Show + Copy>(o: &mut Out, d: &str, f: &str, count: Option<usize>, wraws: &[u128], vals: &[u128],
-                            mk: &dyn Fn(u128) -> S, rawof: &dyn Fn(&S) -> u128, conv: &dyn Fn(u128) -> V,
+                            mk: &dyn Fn(u128) -> S, rawof: &dyn Fn(&S) -> u128, stor: &dyn Fn(&S) -> u128, conv: &dyn Fn(u128) -> V,
                             with: &dyn Fn(&S, usize, V) -> S, set: &dyn Fn(&mut S, usize, V)) {
     let (ins, outs) = match count { None => (vec![0usize], vec![]), Some(k) => indices(k) };
     let mut one = |o: &mut Out, i: usize, raw: u128, v: u128| {
         let it = if count.is_some() { format!("{}", i) } else { "-".to_string() };
         let x = conv(v);
-        let r = catch(|| { let s = mk(raw); let t = with(&s, i, x); (rawof(&t), rawof(&s)) });
+        let r = catch(|| { let s = mk(raw); let t = with(&s, i, x); (rawof(&t), rawof(&s), stor(&t)) });
         match r {
-            Some((t, s)) => {
+            Some((t, s, st)) => {
                 o.line(&format!("op {} with {} {} {:#x} {} = ok {:#x}", d, f, it, raw, x.show(), t));
                 if s != raw { o.line(&format!("RECEIVER-CHANGED {} {} {} {:#x} {}", d, f, it, raw, x.show())); }
+                if st != t { o.line(&format!("HIDDEN-STATE {} with {} {} {:#x} {} storage={:#x} raw_value={:#x}", d, f, it, raw, x.show(), st, t)); }
             }
             None => o.line(&format!("op {} with {} {} {:#x} {} = panic", d, f, it, raw, x.show())),
         }
-        let r = catch(|| { let mut s = mk(raw); set(&mut s, i, x); rawof(&s) });
-        o.line(&format!("op {} set {} {} {:#x} {} = {}", d, f, it, raw, x.show(), res(r)));
+        let r = catch(|| { let mut s = mk(raw); set(&mut s, i, x); (rawof(&s), stor(&s)) });
+        match r {
+            Some((t, st)) => {
+                o.line(&format!("op {} set {} {} {:#x} {} = ok {:#x}", d, f, it, raw, x.show(), t));
+                if st != t { o.line(&format!("HIDDEN-STATE {} set {} {} {:#x} {} storage={:#x} raw_value={:#x}", d, f, it, raw, x.show(), st, t)); }
+            }
+            None => o.line(&format!("op {} set {} {} {:#x} {} = panic", d, f, it, raw, x.show())),
+        }
     };
     for &i in &ins {
         for &raw in wraws {
@@ -200,7 +215,7 @@ pub struct FI { pub name: &'static str, pub count: Option<usize>, pub vk: VK }
 
 /// random histories of writes; after each history the final raw value is printed and the value is compared
 /// with its re-wrapped copy through every getter
-pub fn op_hist<S>(o: &mut Out, d: &str, n: u32, fields: &[FI], mk: &dyn Fn(u128) -> S, rawof: &dyn Fn(&S) -> u128,
+pub fn op_hist<S>(o: &mut Out, d: &str, n: u32, fields: &[FI], mk: &dyn Fn(u128) -> S, rawof: &dyn Fn(&S) -> u128, stor: &dyn Fn(&S) -> u128,
                   apply: &dyn Fn(&mut S, usize, usize, u128, bool) -> String, getters: &dyn Fn(&S) -> Vec<String>,
                   rewrap: &dyn Fn(&S) -> S) {
     let nseq = if o.tier_thorough { 60 } else { 12 };
@@ -230,12 +245,13 @@ pub fn op_hist<S>(o: &mut Out, d: &str, n: u32, fields: &[FI], mk: &dyn Fn(u128)
             }
             let fin = rawof(&st);
             let same = getters(&st) == getters(&rewrap(&st));
-            (text, fin, same)
+            (text, fin, same, stor(&st))
         });
         match out {
-            Some((text, fin, same)) => {
+            Some((text, fin, same, sto)) => {
                 o.line(&format!("op {} hist {:#x} {}{} = ok {:#x}", d, raw, steps.len(), text, fin));
                 if !same { o.line(&format!("REWRAP-DIFF {} hist {:#x} {}{}", d, raw, steps.len(), text)); }
+                if sto != fin { o.line(&format!("HIDDEN-STATE {} hist {:#x} {}{} storage={:#x} raw_value={:#x}", d, raw, steps.len(), text, sto, fin)); }
             }
             None => o.line(&format!("HIST-PANIC {} raw={:#x} steps={}", d, raw, steps.len())),
         }
